@@ -225,7 +225,7 @@ impl Prop for C12 {
         1000
     }
     fn cases(&self, tier: Tier) -> u32 {
-        tier.pick(60_000, 2_000_000)
+        tier.pick(600_000, 10_000_000)
     }
     fn watchdog_ms(&self) -> u64 {
         5_000
